@@ -380,9 +380,17 @@ func RandomFill(v reflect.Value, r *rand.Rand, depth int) {
 	case reflect.Float32:
 		v.SetFloat(trickyF32[r.Intn(len(trickyF32))])
 	case reflect.String:
+		if r.Intn(60) == 0 {
+			// a long value: bodies that do not fit any fixed-size buffer (6 000 characters)
+			v.SetString(strings.Repeat("long-", 1200))
+			return
+		}
 		v.SetString(trickyStrings[r.Intn(len(trickyStrings))])
 	case reflect.Slice:
 		n := r.Intn(4) - 1 // -1: leave the slice nil (the zero value a handler that never appended returns)
+		if depth <= 1 && r.Intn(80) == 0 {
+			n = 150 // a long list
+		}
 		if depth > 3 {
 			n = 0
 		}
